@@ -41,6 +41,7 @@ r01_1.rule_id = "R01.1"
 def r01_2(ctx):
     F = ctx.need("cds::gc::hp::details::basic_smr::inplace_scan")[0]
     smr.rule_inplace_mark(ctx, "R01.2", F)
+    smr.rule_scan_ranges(ctx, "R01.2r", R)
 r01_2.rule_id = "R01.2"
 
 
@@ -87,4 +88,4 @@ r01_6.rule_id = "R01.6"
 
 
 RULES = [r01_1, r01_2, r01_3, r01_4, r01_5, r01_6]
-FLOORS = {"R01.1": 5, "R01.2": 6, "R01.3": 8, "R01.4": 4, "R01.4a": 2, "R01.5": 2, "R01.6": 6}
+FLOORS = {"R01.2r": 8, "R01.1": 5, "R01.2": 6, "R01.3": 8, "R01.4": 4, "R01.4a": 2, "R01.5": 2, "R01.6": 6}
